@@ -242,6 +242,38 @@ def run_e2(res, tier):
     base = [pc for pc in fam_basic.programs(tier) if pc[0] in ("pparts2", "psame0", "ptypes0", "pprefix0")]
     cp = e2.Corpus("order-" + tier)
     progs = []
+    # parameters / associated types whose order of first use changes with the declaration order of the methods
+    from . import c15
+    B = "sylvia::serde::Serialize + sylvia::serde::de::DeserializeOwned + std::fmt::Debug + Clone + PartialEq + sylvia::schemars::JsonSchema"
+    i0 = Interface(name="Ifg", module="ifg", assoc=(("LeftT", B), ("MidT", B), ("RightT", B)), custom="msg=Empty, query=Empty",
+                   assoc_impl=(("LeftT", "u32"), ("MidT", "bool"), ("RightT", "String")),
+                   methods=(Method("exec", "set_right", (Arg("r", "Self::RightT"),)), Method("exec", "set_left", (Arg("l", "Option<Self::LeftT>"), Arg("m", "Self::MidT"))),
+                            Method("query", "get_both", (Arg("x", "Self::RightT"), Arg("y", "Vec<Self::LeftT>"))), Method("query", "get_mid", (Arg("z", "Self::MidT"),)),
+                            Method("sudo", "poke", (Arg("z", "Self::MidT"), Arg("w", "Self::LeftT")))))
+    base.append(("passoc0", Contract(methods=(Method("instantiate", "inst", ()), Method("exec", "own", ())), interfaces=(i0,), entry_points=""), {"generic"}))
+    W = tuple("%s: %s + 'static" % (q, B) for q in ("TA", "TB", "TD"))
+    gms = (Method("instantiate", "inst", (Arg("x1", "TB"), Arg("x2", "Vec<TA>"))),
+           Method("exec", "e_b", (Arg("x1", "TB"),)), Method("exec", "e_ad", (Arg("x1", "TA"), Arg("x2", "Option<TD>"))),
+           Method("query", "q_d", (Arg("x1", "Vec<TD>"),)), Method("query", "q_ba", (Arg("x1", "TB"), Arg("x2", "TA"))),
+           Method("sudo", "s_d", (Arg("x1", "TD"),)), Method("sudo", "s_a", (Arg("x1", "Vec<TA>"), Arg("x2", "TB"))))
+    base.append(("pgord0", Contract(methods=gms, generics=(("TA", ""), ("TB", ""), ("TD", "")), where=W, concrete=("u32", "String", "bool"), entry_points="generics<u32, String, bool>",
+                                    new="pub const fn new() -> Self { Self { _p: std::marker::PhantomData } }"), {"generic"}))
+    CONC = {"Self::LeftT": "u32", "Self::MidT": "bool", "Self::RightT": "String", "TA": "u32", "TB": "String", "TD": "bool"}
+
+    def concrete(m):
+        args = []
+        for a in m.args:
+            t = a.ty
+            for k, v in CONC.items():
+                t = re.sub(r"(?<![\w:])%s\b" % re.escape(k), v, t)
+            args.append(Arg(a.name, t))
+        return replace(m, args=tuple(args))
+
+    def tuples_of(m):
+        try:
+            return fam_basic.value_tuples(m)[:2]
+        except KeyError:
+            return [tuple(c15.compose_value(a.ty) for a in m.args)]
     for pid, c, tags in base:
         variants = {"fwd": c,
                     "rev": replace(c, methods=tuple(reversed(c.methods)), interfaces=tuple(replace(i, methods=tuple(reversed(i.methods))) for i in reversed(c.interfaces))),
@@ -295,7 +327,8 @@ def run_e2(res, tier):
             c0 = members[0][2]
             cases = []
             for (label, disp, m) in fam_basic.handlers(c0):
-                for tup in fam_basic.value_tuples(m)[:2]:
+                m = concrete(m)
+                for tup in tuples_of(m):
                     d = fam_basic.doc(m, tup)
                     for op in ("ep", "mt"):
                         cases.append({"op": op, "kind": m.kind, "input": d, "ctx": fam_basic.CONTEXTS[1]})
